@@ -428,6 +428,8 @@ def keyed_pairs_use(eng, f, call: ast.Call, depth: int = 2) -> Tuple[str, str]:
     # dict(pairs)
     if isinstance(par, ast.Call) and dotted(par.func) == "dict" and par.args and par.args[0] is call:
         return "overwrite", "dict(%s)" % ast.unparse(call)[:50]
+    if isinstance(par, ast.Call) and isinstance(par.func, ast.Attribute) and par.func.attr == "update" and par.args and par.args[0] is call:
+        return "overwrite", ast.unparse(par)[:70]
     if isinstance(par, ast.comprehension) and par.iter is call:
         comp = pm.get(id(par))
         k = _pair_key(par.target)
@@ -436,6 +438,8 @@ def keyed_pairs_use(eng, f, call: ast.Call, depth: int = 2) -> Tuple[str, str]:
         if isinstance(comp, (ast.GeneratorExp, ast.ListComp)) and k and isinstance(comp.elt, ast.Tuple) and comp.elt.elts and isinstance(comp.elt.elts[0], ast.Name) and comp.elt.elts[0].id == k:
             cp = pm.get(id(comp))
             if isinstance(cp, ast.Call) and dotted(cp.func) == "dict":
+                return "overwrite", ast.unparse(cp)[:70]
+            if isinstance(cp, ast.Call) and isinstance(cp.func, ast.Attribute) and cp.func.attr == "update" and cp.args and cp.args[0] is comp:
                 return "overwrite", ast.unparse(cp)[:70]
         return "unknown", "comprehension"
     if isinstance(par, (ast.For, ast.AsyncFor)) and par.iter is call:
